@@ -397,7 +397,7 @@ def gen_pair(rng):
         if rng.random() < 0.15:
             t2 = V.gen_value(rng, depth=3, width=4, strings=strings, kinds=kinds, keygen=keygen)
         else:
-            vals, _k = V.edit_script(rng, t1, rng.randint(1, 4), strings=strings)
+            vals, _k = V.edit_script(rng, t1, rng.randint(2, 6), strings=strings)
             t2 = vals[-1]
         if D.set_alias(t1, t2) or D.tag_unsafe(t1, t2):
             continue
@@ -411,9 +411,11 @@ def rx_escape(s):
     return re.escape(s)
 
 
-def gen_options(rng, t1, t2, P, n):
-    """n filter options for one pair"""
+def gen_options(rng, t1, t2, P, n, hot=()):
+    """n filter options for one pair; `hot` = positions at / above / next to an
+    entry of the unrestricted result (chosen more often, so that the filter bites)"""
     nonroot = [p for p in P if p] or [[]]
+    hot = [p for p in hot if p]
     keypaths = [p for p in nonroot if p and p[-1][0] == "k"] or nonroot
     strpaths = [p for p in nonroot if p and all(simple_str_key(e) for e in p)] or nonroot
     out = []
@@ -422,6 +424,9 @@ def gen_options(rng, t1, t2, P, n):
                            "inc1", "inc1", "inc2", "inc_any", "unrooted", "lit_rx"])
         zip_ = rng.random() < 0.6
         pool = nonroot if zip_ or rng.random() < 0.25 else keypaths
+        if hot and rng.random() < 0.65:
+            hp = [p for p in hot if zip_ or p[-1][0] == "k"]
+            pool = hp or pool
         opt = {"kind": kind, "zip": zip_, "thr": rng.choice(THRS)}
         if kind == "lit1":
             q = rng.choice(pool) if rng.random() < 0.97 else []
@@ -603,7 +608,18 @@ def _work(args):
         t1, t2 = gen_pair(rng)
         P = all_positions(t1, t2)
         base = {}
-        for opt in gen_options(rng, t1, t2, P, nopts):
+        b0 = run_tree(t1, t2, {"zip": True, "thr": 0})[0]
+        hot = []
+        if not isinstance(b0, tuple):
+            keys = set()
+            for e in b0:
+                for n in range(1, len(e[1]) + 1):
+                    keys.add(json.dumps(e[1][:n]))
+                    # the siblings of every level on the way
+                    keys.update(json.dumps(p) for p in P if len(p) == n and p[:n - 1] == e[1][:n - 1])
+            hot = [p for p in P if json.dumps(p) in keys]
+            base[(True, 0)] = (b0, run_text(t1, t2, {"zip": True, "thr": 0}))
+        for opt in gen_options(rng, t1, t2, P, nopts, hot):
             bk = (opt["zip"], opt["thr"])
             if bk not in base:
                 bopt = {"zip": opt["zip"], "thr": opt["thr"]}
